@@ -218,6 +218,7 @@ class SimS3:
         self.page_size = page_size
         self.get_faults = {}     # (bucket, key) -> error code
         self.list_fault_page = None
+        self.empty_page_at = None
         self.fired = Counter()
         self.calls = Counter()
 
@@ -241,6 +242,10 @@ class SimS3:
                     return
                 n = s3.page_size
                 for pi, i in enumerate(range(0, len(keys), n)):
+                    if s3.empty_page_at is not None and pi == s3.empty_page_at:
+                        # S3 may return a page with no keys and still be truncated
+                        s3.fired['empty_page'] += 1
+                        yield {'IsTruncated': True, 'Name': Bucket, 'Prefix': Prefix, 'Contents': [], 'KeyCount': 0}
                     if s3.list_fault_page is not None and pi == s3.list_fault_page:
                         s3.fired['list_error'] += 1
                         raise _client_error('InternalError', 'ListObjects')
